@@ -50,10 +50,10 @@ VARIANTS = {
     'full': ('ili\tstatus\tdefinition', [('i1', 'active', 'def one'), ('i2', 'deprecated', 'def two'),
                                          ('i3', 'provisional', ''), ('i9', 'active', 'unused')]),
     'upper': ('ILI\tStatus\tDefinition', [('i1', 'active', 'def one'), ('i3', 'weird', 'def three')]),
-    'ili-only': ('ili', [('i1',), ('i2',), ('i9',)]),
-    'ili-status': ('ili\tstatus', [('i1', 'deprecated'), ('i2', 'provisional'), ('i8', 'active')]),
+    'ili-only': ('ili', [('i1',), ('i2',), ('i3',), ('i9',)]),
+    'ili-status': ('ili\tstatus', [('i1', 'deprecated'), ('i2', 'provisional'), ('i3', 'active'), ('i8', 'active')]),
     'ili-definition': ('ili\tdefinition', [('i2', 'only def'), ('i3', '')]),
-    'short-rows': ('ili\tstatus\tdefinition', [('i1',), ('i2', 'deprecated'), ('i3', 'active', 'd3')]),
+    'short-rows': ('ili\tstatus\tdefinition', [('i1',), ('i2', 'deprecated'), ('i3', 'active'), ('i7', 'active', 'd7')]),
     'quotes': ('ili\tstatus\tdefinition', [('i1', 'active', '"big" thing'), ('i2', 'deprecated', '"unbalanced quote'),
                                              ('i3', 'provisional', "it's a \\ back\\slash, comma, 'q'"), ('i9', 'active', ' padded ')]),
     'empty': ('ili\tstatus\tdefinition', []),
